@@ -78,6 +78,13 @@ func (w *writer) NeedsRollover(rollover int64) bool {
 }
 
 func (w *writer) Publish(msgs []message.Message) (int64, error) {
+	// refuse the whole batch before appending any of it
+	for i := range msgs {
+		if err := message.Validate(msgs[i]); err != nil {
+			return OffsetInvalid, err
+		}
+	}
+
 	nextOffset, indexTime := w.index.getNext()
 
 	items := make([]index.Item, len(msgs))
